@@ -405,10 +405,21 @@ def run(ctx):
             got2 = f"raises {e.exc_name}"
         r4.check(got2 == ["French"], "print_xform_to_file:IANA check[default_language='French']", "a default language without a valid code is reported like any other; only `default` is skipped",
                  pf.loc(ic[0]), why_fail=repr(got2))
-    r4.check(len(ic) == 1 and guard_texts(ic[0], stop=pf.node) == ["translations"] and norm(ic[0].args[0]) == "translations", "print_xform_to_file:IANA check",
-             "the language check runs on the survey's translations on every successful path, independent of validate/enketo", pf.loc(), why_fail=repr([guard_texts(c, stop=pf.node) for c in ic]))
-    wa = [c for c in walk_own(pf.node) if isinstance(c, ast.Call) and isinstance(c.func, ast.Attribute) and c.func.attr == "append" and norm(c.func.value) == "warnings"]
-    r4.check(len(wa) == 1 and guard_texts(wa[0], stop=pf.node) == ["translations", "bad_languages"], "print_xform_to_file:IANA warning", "one warning iff some language has a bad tag", pf.loc())
+    # evaluated: the language check runs once on every successful path - whatever validators are requested and whether
+    # or not they had something to say - and adds exactly one advisory iff some language has a bad tag
+    from .. import printxform
+    for validate_, enketo_, has_tr, bad_, vw_ in itertools.product((False, True), (False, True), (True, False), ([], ["French", "Elvish (qya)"]), ([], ["ODK Validate Warnings: x"])):
+        if vw_ and not validate_:
+            continue
+        res_ = printxform.run(ctx, "C20.R4", pretty_print=True, validate=validate_, enketo=enketo_, translations=({"French": {}, "English (en)": {}} if has_tr else {}), bad=bad_, odk_warnings=vw_)
+        desc_ = f"validate={validate_} enketo={enketo_} translations={'yes' if has_tr else 'none'} bad tags={bad_} validator warnings={len(vw_)}"
+        lang_ws = [w_ for w_ in res_.warnings if not (isinstance(w_, str) and w_.startswith("ODK Validate"))]
+        want_n = 1 if (has_tr and bad_) else 0
+        okw = res_.outcome == "return" and len(lang_ws) == want_n and (not want_n or all(b_ in str(lang_ws[0]) for b_ in bad_)) and [w_ for w_ in res_.warnings if w_ not in lang_ws] == list(vw_)
+        r4.check(okw, f"print_xform_to_file[{desc_}]:language advisory", f"{want_n} language advisory naming the bad languages; the validators' warnings are kept", pf.loc(),
+                 why_fail=f"{res_.outcome}; warnings {[str(w_)[:60] for w_ in res_.warnings]}")
+        if has_tr:
+            r4.check(res_.calls.count("language check") == 1, f"print_xform_to_file[{desc_}]:language check runs", "the check runs exactly once", pf.loc(), why_fail=repr(res_.calls))
     rules.append(r4)
 
     # ------------------------------------------------------------------ R5
